@@ -195,30 +195,26 @@ func c19LockForms(c *runCtx, gb, tmpl string, id entity.Id) {
 			pidMax = v
 		}
 	}
-	deadPid := func(want int) int {
-		for p := want; p > 1; p-- {
-			if _, err := os.Stat(fmt.Sprintf("/proc/%d", p)); err != nil {
-				return p
-			}
-		}
-		return want
+	alive := func(p int) bool {
+		_, err := os.Stat(fmt.Sprintf("/proc/%d", p))
+		return err == nil
 	}
-	// pids that no process has: above this machine's pid_max when that is below the kernel's limit
+	// pids of several lengths that no process has now (the kernel hands out pids below pid_max only;
+	// where pid_max is at the kernel's limit, a candidate that happens to be in use is left out)
 	var dead []int
-	for _, w := range []int{9, 99, 999, 9999, 99999, 999999, 4194303} {
-		if w >= pidMax || w < 1000 {
-			dead = append(dead, deadPid(w))
+	for _, w := range []int{99999, 999999, 4194303, pidMax - 1, pidMax + 1} {
+		if w > 1 && w <= 4194304 && !alive(w) {
+			dead = append(dead, w)
 		}
-	}
-	if d := deadPid(pidMax - 1); true {
-		dead = append(dead, d)
 	}
 	for _, pid := range dead {
 		dir := copyDir(tmpl)
 		os.WriteFile(lockPath(dir), []byte(strconv.Itoa(pid)), 0o644)
 		out, err := runGB(gb, dir, "bug")
 		c.count(fmt.Sprintf("lock-form/dead-digits=%d", len(strconv.Itoa(pid))))
-		if err != nil {
+		if err != nil && alive(pid) {
+			c.count("lock-form/pid-came-alive")
+		} else if err != nil {
 			c.violation(-1, "C19/dead-holder-blocks", fmt.Sprintf("the lock left by a dead process with pid %d is not recovered: %s", pid, trunc(out, 200)), nil)
 		} else if readLock(dir) != "" {
 			c.violation(-1, "C19/lock-left-by-command", fmt.Sprintf("after recovering the lock of dead pid %d the command left a lock file: %q", pid, readLock(dir)), nil)
